@@ -560,6 +560,25 @@ func runImpl(cs *Case) (*implRun, *failure) {
 			out.Crashed = true
 			break
 		}
+		if op.Op == "load" && res == "ok" {
+			// "loads exactly the persisted conditions of that shard", for EVERY Load (not only the next holder's fresh
+			// store): whatever the cache held before, every persisted condition of the shard is now cached as persisted
+			// (KG.Props.C19.c19_load_covers) — real util.GetShardID, real tracker, cache read through List/Get
+			have := map[string]CondJ{}
+			for _, e := range r.loc() {
+				have[e.Key+"/"+e.Cond.Name] = e.Cond
+			}
+			for _, pc := range api {
+				if util.GetShardID(rig.UnHex(pc.Up), cs.Count) != r.shard {
+					continue
+				}
+				// spec and status are what the property speaks about (metadata such as the resourceVersion is not judged)
+				if got, ok := have[pc.Up+"/"+pc.Name]; !ok || got.Spec != pc.Spec || got.Status != pc.Status {
+					return nil, &failure{kind: "judge", class: "c19.load-not-exact", impl: got, model: pc,
+						what: fmt.Sprintf("Load answered nil but the persisted condition %q of shard %d/%d is cached as %s, persisted is %s", rig.UnHex(pc.Name), r.shard, cs.Count, show(got), show(pc))}
+				}
+			}
+		}
 		ob := obsJ{Op: op, Loc: before, Stopped: stopped, Points: pts(r.snaps(m0.calls, m3.calls)), IPoints: pts(nil), Points3: pts(nil), IRes: "ok", Api: api, Res: res}
 		st := stepJ{Res: res, Loc: r.loc(), Api: api, NextRv: m3.nextRv, Calls: m3.calls, Stopped: r.stopped, IRes: "ok"}
 		switch {
